@@ -18,8 +18,38 @@ def scripts(tier):
             yield (d, t, list(combo))
 
 
+def comment_values():
+    """A value that carries a comment is still exactly one well-formed expression: the emitted text must parse, whatever the layout
+    of the set it is written into."""
+    from bounded import nixgen as G
+    from nix_manipulator import parse
+    from nix_manipulator.cli.manipulations import set_value
+
+    vio = []
+    n = 0
+    for dname, text in (("one-line", "{ a = 1; }\n"), ("multi-line", "{\n  a = 1;\n  b = 2;\n}\n"), ("one-line-let", "let v = 1; in { a = v; }\n")):
+        for value in ("1 # c", "1 # c\n", "/* c */ 1", "1 /* c */"):
+            for path in ("a", "z"):
+                n += 1
+                try:
+                    out = set_value(parse(text), path, value)
+                except (KeyError, ValueError):
+                    continue
+                if G.parse_cst(out).has_error:
+                    kind = "line" if "#" in value else "block"
+                    vio.append(dict(check="comment-values", signature=f"output-has-syntax-error|value with a {kind} comment|{dname} set",
+                                    what=f"C05 output-has-syntax-error: set {path} {value!r} on {text!r} gives {out!r}", has_input=True,
+                                    inputs={"commentvalue": [text, path, value]},
+                                    failing_input={"inputs": {"text": text, "op": "set", "path": path, "value": value}, "observed": out, "origin": "bounded enumeration"}))
+    seen = {}
+    for v in vio:
+        seen.setdefault(v["signature"], v)
+    return dict(evaluations=n, distinct_nontrivial=n, rule="4 comment-carrying values x 3 documents x 2 paths: the emitted text parses",
+                samples=[], exhaustive=True, violations=list(seen.values()), seconds=0.0)
+
+
 def run(tier, seed):
-    single = E.run_edits("C05", tier, seed)
+    single = E.merge(E.run_edits("C05", tier, seed), comment_values())
     seq = E.run_scripts("C05", list(scripts(tier)),
                         "sequences of %d edits from a 13-operation alphabet on 25 documents, applied to one document object; after every step the "
                         "attribute tree and let layers read from the output CST must equal the reference model's state" % (2 if tier == "quick" else 3))
@@ -27,6 +57,13 @@ def run(tier, seed):
 
 
 def replay(v):
+    if "commentvalue" in v["inputs"]:
+        hit = [x for x in comment_values()["violations"] if x["signature"] == v.get("signature")]
+        print(hit[:1] or "not reproduced")
+        if hit:
+            print("VIOLATION property=C05 replay=<given>")
+            return 1
+        return 0
     if "script" in v["inputs"]:
         return E.replay_script("C05", v)
     return E.replay_edit("C05", v)
